@@ -272,7 +272,8 @@ def main(tier):
     TZ = 26 if tier == 'quick' else 45           # D + tz reaches past 2^64 and 2^96 (word-count boundaries of the unscaled integer)
     for tz in range(0, TZ + 1):
         tasks.append({'kind': 'normalized', 'D': Dn, 'tz': tz})
-    for k in list(range(0, 46)) + [589, 590, 591] + ([1000, 5000] if tier == 'thorough' else []):
+    # scale extension costs milliseconds per difference: every difference up to 1100 and the narrowing-cast boundaries
+    for k in sorted(set(list(range(0, 1101)) + [2 ** j + d for j in range(8, 17) for d in (-1, 0, 1, 19, 20)] + ([5000, 70000] if tier == 'thorough' else []))):
         tasks.append({'kind': 'extend', 'k': k})
     rep.required_labels = {'strips exactly the trailing zeros'}
     rep.bounds = {'digits(): bit lengths': '0..%d (every integer of each bit length, symbolic)' % B, 'ten_to_the*: k': '0..%d + 5 seeded' % Kmax,
